@@ -43,6 +43,8 @@ fn leaves_boundary() -> Vec<X> {
         float(0.1),
         float(1e308),
         float(-0.0),
+        float(0.0),
+        float(2.0),
         int(2),
         int(0),
         int(63),
